@@ -1107,3 +1107,97 @@ func genEffects(r *rng, ty string, k int) *scenario {
 	}
 	return sc
 }
+
+// ---- C17: reply chains, owned / foreign collections, repeated deliveries ---------------------------------------
+
+// runForward delivers one activity 1..3 times to one or two local inboxes against one evolving world.
+func runForward(r *rng, k int) (scs []*scenario, ress []runResult) {
+	w := baseWorld(r)
+	cfg := defaultCfg()
+	cfg.MaxForwarding = 1 + r.intn(4)
+	cfg.Filter = pick(r, []string{"all", "all", "first", "none"})
+	alice := actorID(local, "alice")
+	sender := pick(r, remoteActors[:3])
+	id := fmt.Sprintf("%s/activities/fwd-%d", remote, k)
+	act := jmap{"@context": asCtx, "type": pick(r, []string{"Create", "Announce", "Like", "Travel", "Update"}), "id": id, "actor": sender}
+	// a reply chain of depth 0..5: each level embedded or by IRI (dereferenced), ownership at a random level
+	depth := r.intn(6)
+	ownedAt := -1
+	if r.chance(4, 5) {
+		ownedAt = r.intn(depth + 1)
+		if r.chance(1, 2) && ownedAt > 1 {
+			ownedAt = r.intn(2)
+		}
+	}
+	var build func(level int) interface{}
+	build = func(level int) interface{} {
+		host := remote
+		if level == ownedAt {
+			host = local
+		}
+		nid := fmt.Sprintf("%s/chain/%d/%d", host, k, level)
+		n := jmap{"type": "Note", "id": nid, "content": fmt.Sprintf("level %d", level)}
+		if level < depth {
+			prop := pick(r, []string{"inReplyTo", "inReplyTo", "tag", "object", "target"})
+			if prop == "object" || prop == "target" {
+				n["type"] = "Offer"
+			}
+			n[prop] = build(level + 1)
+		}
+		if level == ownedAt {
+			w.Owned[nid] = true
+			st := deepCopy(n)
+			st["@context"] = asCtx
+			w.Store[nid] = st
+		}
+		if r.chance(1, 2) { // by IRI: the next level is found by dereferencing
+			doc := deepCopy(n)
+			doc["@context"] = asCtx
+			switch r.intn(8) {
+			case 0:
+				w.Remote[nid] = remoteDoc{Kind: "unreachable"}
+			default:
+				w.Remote[nid] = remoteDoc{Kind: "doc", Doc: doc}
+			}
+			return nid
+		}
+		return n
+	}
+	first := build(0)
+	if act["type"] == "Update" {
+		act["object"] = jmap{"type": "Note", "id": fmt.Sprintf("%s/notes/u%d", remote, k), "content": "u", "inReplyTo": first}
+	} else if r.chance(1, 2) {
+		act["object"] = first
+	} else {
+		act["object"] = jmap{"type": "Note", "id": fmt.Sprintf("%s/notes/f%d", remote, k), "content": "x"}
+		act["inReplyTo"] = first
+	}
+	pool := []string{local + "/cols/1", local + "/cols/2", local + "/cols/1", local + "/cols/2", remote + "/cols/7", remote + "/cols/9", local + "/notes/2", alice, sender, public}
+	for _, p := range []string{"to", "cc", "audience"} {
+		if !r.chance(2, 3) {
+			continue
+		}
+		var l []interface{}
+		for i := 0; i < 1+r.intn(3); i++ {
+			l = append(l, pick(r, pool))
+		}
+		act[p] = one(l)
+	}
+	n := 1 + r.intn(3)
+	for j := 0; j < n; j++ {
+		owner := "alice"
+		if r.chance(1, 3) {
+			owner = "bob"
+		}
+		sc := inboxScenario("forward:"+act["type"].(string), w, cfg, act)
+		sc.Path = "/users/" + owner + "/inbox"
+		if r.chance(1, 6) {
+			sc.Faults = []int{r.intn(60)}
+		}
+		res := runScenario(sc)
+		scs = append(scs, sc)
+		ress = append(ress, res)
+		w = res.Final
+	}
+	return
+}
